@@ -217,3 +217,7 @@ def generate(repo, g):
     # ---- loop unrolling / per-node cache facts (Model/FlowCache.lean)
     from translator import c02_flow_facts
     c02_flow_facts.generate(repo, g)
+
+    # ---- class-level attribute lookup facts (Model/ClassLookup.lean)
+    from translator import c02_lookup_facts
+    c02_lookup_facts.generate(repo, g)
